@@ -31,7 +31,18 @@ import re
 import shutil
 
 import vlib
-from vlib import run_tlc, tlc_must_pass, qev, write_ndjson, read_ndjson, chash
+from vlib import tlc_must_pass, qev, write_ndjson, read_ndjson, chash
+from vlib import run_tlc as _run_tlc_once
+
+
+def run_tlc(*a, **kw):
+    """TLC's state-pool files live under the shared work/tlc directory; if somebody else's clean-up removes them
+    under a running TLC ('when reading pool file' / 'when writing the disk') the run is repeated once."""
+    r = _run_tlc_once(*a, **kw)
+    if r.error and re.search(r"StatePool|pool file|when writing the disk", r.error):
+        vlib.log(f"[tlc] state-pool file lost under a running TLC ({kw.get('tag')}); repeating the run once")
+        r = _run_tlc_once(*a, **kw)
+    return r
 
 LEVEL = "model_checking"
 F_RACE = "C20/cross-process-remove-window"
